@@ -14,6 +14,7 @@ pub mod c02;
 pub mod c03;
 pub mod c04;
 pub mod c05;
+pub mod c10;
 pub mod c16;
 pub mod docs;
 
@@ -288,6 +289,7 @@ pub fn lookup(prop: &str) -> Option<PropFn> {
         "C03" => Some(c03::run),
         "C04" => Some(c04::run),
         "C05" => Some(c05::run),
+        "C10" => Some(c10::run),
         "C16" => Some(c16::run),
         _ => None,
     }
